@@ -82,6 +82,13 @@ impl<F: TryFuture> TryJoinAll<F> {
     }
 }
 
+impl<F: TryFuture> Drop for TryJoinAll<F> {
+    fn drop(&mut self) {
+        // outputs collected before an early drop would otherwise leak
+        self.drop_outputs(None);
+    }
+}
+
 impl<F: TryFuture> Future for TryJoinAll<F> {
     type Output = Result<Vec<F::Ok>, F::Err>;
 
